@@ -319,7 +319,7 @@ func c06r2(c *core.Ctx) {
 				init := map[string]bool{}
 				for _, e := range cl.Elts {
 					if kv, ok := e.(*ast.KeyValueExpr); ok {
-						init[recType+"."+kv.Key.(*ast.Ident).Name] = true
+						init[litFieldKey(m, kv)] = true
 					}
 				}
 				for k := range read {
